@@ -32,10 +32,10 @@ from vf.x86 import explore as E
 from vf.x86 import asmdrive as AD
 
 IGNORED_ATTRS = ('simp', 'is_eval', '_memo_simp', '_memo_is_eval')
-INTERLEAVE_BYTES = [bytes.fromhex('66670fb7840012345678'), bytes.fromhex('f30fb8c1'), bytes.fromhex('81'), bytes.fromhex('8b'), bytes.fromhex('0f0b9090'),
+INTERLEAVE_BYTES = [bytes.fromhex('64d320'), bytes.fromhex('2eec'), bytes.fromhex('66670fb7840012345678'), bytes.fromhex('f30fb8c1'), bytes.fromhex('81'), bytes.fromhex('8b'), bytes.fromhex('0f0b9090'),
                     bytes.fromhex('c744240812345678')]
 INTERLEAVE_LINES = ['mov eax, DWORD PTR [ebx+esi*4+16]', 'add bl, 3', 'nosuchmnemonic eax', 'mov eax, [', 'push 0x1234']
-ASM_LINES = ['mov eax, {N}', 'add DWORD PTR [ebx+{N}], {N}', 'mov al, BYTE PTR [esi+edi*2+{N}]', 'push {N}', 'imul eax, ebx, {N}', 'mov WORD PTR [{N}], cx',
+ASM_LINES = ['shl eax, cl', 'in al, dx', 'shld eax, ebx, cl', 'mov eax, {N}', 'add DWORD PTR [ebx+{N}], {N}', 'mov al, BYTE PTR [esi+edi*2+{N}]', 'push {N}', 'imul eax, ebx, {N}', 'mov WORD PTR [{N}], cx',
              'lea ecx, [eax+eax*4+{N}]', 'test BYTE PTR [ebp-{N}], {N}', 'shl eax, {N}', 'jmp {N}', 'enter {N}, {N}', 'movq mm1, QWORD PTR [eax+{N}]',
              'fld DWORD PTR [esp+{N}]', 'in al, {N}', 'ret {N}']
 
@@ -440,9 +440,11 @@ def jobs(tier, seed):
     rnd = random.Random(seed)
     if tier == 'quick':
         # every row without prefix (hidden state is per instruction: a sample of rows would miss e.g. pushfd), one row per signature under 66
-        ej = E.make_jobs(tier, seed, prefix_sets=[()], sib='min', per_signature=False) + E.make_jobs(tier, seed, prefix_sets=[(0x66,)], sib='min', per_signature=True)
+        # ... and under a segment override, an address-size and a rep prefix (prefixes select other decoder paths, e.g. the loop that tags operands with the segment)
+        ej = E.make_jobs(tier, seed, prefix_sets=[()], sib='min', per_signature=False) + \
+            E.make_jobs(tier, seed, prefix_sets=[(0x66,), (0x64,), (0x67,), (0xF3,)], sib='one', per_signature=True)
     else:
-        ej = E.make_jobs(tier, seed, prefix_sets=[(), (0x66,), (0x67,), (0xF3,), (0x2E,)], sib='min', per_signature=False)
+        ej = E.make_jobs(tier, seed, prefix_sets=[(), (0x66,), (0x67,), (0xF3,), (0x2E,), (0x64,)], sib='min', per_signature=False)
     out = [('dis12', j, tier) for j in ej]
     out.append(('asm12', tier, list(ASM_LINES)))
     return out
